@@ -10,6 +10,7 @@
 // Tuple::writer() are facts about immutable values established only by the env's log_* / stamping
 // calls; the env states no negative fact, so a fact is available exactly when the call came first.
 //@trusted [env] catalog lookup, B+tree search/insert/update (units btsearch, btentry), tuple building and version stamping (Kani unit tuplelayout), logger (unit wal), secondary-index maintenance and constraint validation are abstract
+//@trusted [env] Tuple::add_version_with is given the contract `the newest version is created by tid`; that contract is what unit tupleversion checks on the real function (and where the open finding update.newest_version_created_by_writer lives)
 //@trusted [pre] ThreadContext is well formed: ctx.tid() == ctx.snapshot().xid() (both copied from the same TransactionHandle when the context is built)
 //@trusted [sub] `btree.with_cell_at(position, |bytes| { tuple_reader.parse_for_snapshot(bytes, &snapshot).ok()??; Tuple::from_slice_unchecked(bytes).ok() })` is visible_tuple_at(position, &tuple_reader, &snapshot); Box::from(&t) is boxed(&t); HashMap<usize, DataType> is the opaque Assignments; `.expect(msg)` is `.unwrap()`
 use vstd::prelude::*;
